@@ -9,6 +9,8 @@ Case kinds
   penman   one EDS x (properties, lnk, indent): to_triples, from_triples(to_triples); oracle goes through PENMAN text
   triples  arbitrary triples -> from_triples (error branches)
   pentext  an arbitrary (damaged) PENMAN text x {decode, loads, load}: the PenmanError -> PyDelphinException wrappers
+  frommrs  an EDS PRODUCED BY eds.from_mrs (default arguments: quantifier nodes renamed after construction, the id index of
+           the object left stale) handed directly to a codec x options: judged against the same graph rebuilt from its nodes
   api      a list of EDS x codec x write path (encode, dumps, dump to handle / str path / Path) x read path (decode,
            loads, load from StringIO / path / open file) x properties, lnk, show_status x the `indent` argument
            (None, False, True, 0, 1, 2, 4, -1): the model's API layer (Api.lean) against the public functions
@@ -39,6 +41,8 @@ from delphin import sembase, util, variable  # noqa: E402
 from delphin.eds import _eds as edsmod  # noqa: E402
 from delphin.codecs import eds as edsnative  # noqa: E402
 from delphin.codecs import edsjson, edspenman  # noqa: E402
+from delphin.codecs import simplemrs as _simplemrs  # noqa: E402
+from delphin import eds as _edspkg  # noqa: E402
 from delphin.eds import EDS, EDSSyntaxError, Node  # noqa: E402
 from delphin.exceptions import PyDelphinException  # noqa: E402
 from delphin.lnk import Lnk, LnkError  # noqa: E402
@@ -804,9 +808,33 @@ def fixed_cases():
     k2 = je("x", [jn("x", "named", "x", [], [], "Kim")])
     k3 = je("e", [jn("e", "_rain_v_1", "e", [("ARG1", "x")], [("TENSE", "past")], None, L(0, 4)),
                   jn("x", "named", "x", [], [("PERS", "3")], "Kim", L(5, 8))])
+    # twins of the top: nodes that are ==-equal to the top node (Node.__eq__ ignores id and lnk) with another id, listed
+    # before / after it, adjacent / apart, same / different alignment
+    def tw(order, lnks=(None, None), pred="_bark_v_1"):
+        nd = {"e2": jn("e2", pred, "e", [("ARG1", "x4")], [("TENSE", "past")], None, lnks[0]),
+              "e8": jn("e8", pred, "e", [("ARG1", "x4")], [("TENSE", "past")], None, lnks[1]),
+              "x4": jn("x4", "_dog_n_1", "x", [], [("NUM", "sg")], None, L(4, 7))}
+        return je("e8", [nd[i] for i in order])
+    t1 = tw(["e2", "x4", "e8"])
+    t2 = tw(["e2", "e8", "x4"])
+    t3 = tw(["e8", "e2", "x4"])
+    t4 = tw(["e2", "e8", "x4"], (L(0, 3), L(8, 12)))
+    t5 = tw(["x4", "e2", "e8"], (L(8, 12), L(8, 12)))
+    t6 = je("b", [jn("a", "named", "x", [], [], "Kim"), jn("b", "named", "x", [], [], "Kim"),
+                  jn("c", "compound", "e", [("ARG1", "a"), ("ARG2", "b")])])
+    t7 = je("c", [jn("a", "p", "e", [("ARG1", "x")]), jn("b", "p", "e", [("ARG1", "x")], [], None, L(0, 1)),
+                  jn("c", "p", "e", [("ARG1", "x")]), jn("x", "q", "x")])
+    t8 = je("e8", [jn("e2", "p", None, [("ARG1", "e8")]), jn("e8", "p", None, [("ARG1", "e8")])])   # twin via a self loop
+    twins = (t1, t2, t3, t4, t5, t6, t7, t8)
+    for o in status_opts():
+        out.append({"kind": "docs", "docs": list(twins), "opts": o, "fmt": "native"})
+    for fmt in ("json", "penman"):
+        out.append({"kind": "docs", "docs": list(twins), "fmt": fmt,
+                    "opts": {"properties": True, "lnk": True, "show_status": False, "indent": False}})
+    out.extend(from_mrs_cases())
     out.extend(api_cases({"g1": g1, "g2": g2, "g3": g3, "g5": g5, "g7": g7, "g8": g8, "g9": g9, "g13": g13, "k1": k1,
                           "k3": k3}))
-    for g in (g1, g2, g3, g4, g5, g6, g7, g8, g9, g10, g11, g12, g13, c1, c2, c3, c4, c5, c6, c7, c8, k1, k2, k3):
+    for g in (g1, g2, g3, g4, g5, g6, g7, g8, g9, g10, g11, g12, g13, c1, c2, c3, c4, c5, c6, c7, c8, k1, k2, k3) + twins:
         for o in all_opts():
             out.append({"kind": "native", "eds": g, "opts": o})
         for p, l, i in itertools.product([True, False], repeat=3):
@@ -996,6 +1024,46 @@ def pin_lines():
     for name, fn in pinned_functions():
         lines.append("def c03Skel%s : List String := [%s]" % (name, ", ".join(lit(x) for x in skel(fn))))
     return lines
+
+
+# --------------------------------------------------------------------------- converted graphs (kind "frommrs")
+
+FROM_MRS = {
+    # "nearly every dog barked": a predicate-modifier edge that points at the renamed quantifier node
+    "nearly": '[ TOP: h0 INDEX: e2 [ e SF: prop TENSE: past ] RELS: < [ _nearly_x_deg<0:6> LBL: h4 ARG0: e5 ARG1: u6 ] '
+              '[ _every_q<7:12> LBL: h4 ARG0: x3 [ x PERS: 3 NUM: sg ] RSTR: h7 BODY: h8 ] [ _dog_n_1<13:16> LBL: h9 ARG0: x3 ] '
+              '[ _bark_v_1<17:23> LBL: h1 ARG0: e2 ARG1: x3 ] > HCONS: < h0 qeq h1 h7 qeq h9 > ]',
+    "kim": '[ TOP: h0 INDEX: e2 [ e SF: prop TENSE: pres ] RELS: < [ proper_q<0:3> LBL: h4 ARG0: x3 [ x PERS: 3 NUM: sg ] '
+           'RSTR: h5 BODY: h6 ] [ named<0:3> LBL: h7 ARG0: x3 CARG: "Kim" ] [ _sleep_v_1<4:10> LBL: h1 ARG0: e2 ARG1: x3 ] > '
+           'HCONS: < h0 qeq h1 h5 qeq h7 > ]',
+    "two": '[ TOP: h0 INDEX: e2 [ e SF: prop TENSE: past ] RELS: < [ _the_q<0:3> LBL: h4 ARG0: x3 RSTR: h5 BODY: h6 ] '
+           '[ _dog_n_1<4:7> LBL: h7 ARG0: x3 ] [ _chase_v_1<8:14> LBL: h1 ARG0: e2 ARG1: x3 ARG2: x8 ] '
+           '[ _a_q<15:16> LBL: h9 ARG0: x8 RSTR: h10 BODY: h11 ] [ _cat_n_1<17:20> LBL: h12 ARG0: x8 ] > '
+           'HCONS: < h0 qeq h1 h5 qeq h7 h10 qeq h12 > ]',
+    # the quantifier is the first node and the modifier comes last; a second modifier on the other quantifier
+    "both": '[ TOP: h0 INDEX: e2 [ e SF: prop TENSE: past ] RELS: < [ _every_q<7:12> LBL: h4 ARG0: x3 RSTR: h7 BODY: h8 ] '
+            '[ _dog_n_1<13:16> LBL: h9 ARG0: x3 ] [ _chase_v_1<17:23> LBL: h1 ARG0: e2 ARG1: x3 ARG2: x10 ] '
+            '[ _some_q<24:28> LBL: h11 ARG0: x10 RSTR: h12 BODY: h13 ] [ _cat_n_1<29:32> LBL: h14 ARG0: x10 ] '
+            '[ _almost_x_deg<33:39> LBL: h11 ARG0: e15 ARG1: u16 ] [ _nearly_x_deg<0:6> LBL: h4 ARG0: e5 ARG1: u6 ] > '
+            'HCONS: < h0 qeq h1 h7 qeq h9 h12 qeq h14 > ]',
+}
+
+
+def from_mrs_eds(key):
+    """the object eds.from_mrs returns, untouched"""
+    return _edspkg.from_mrs(_simplemrs.decode(FROM_MRS[key]))
+
+
+def from_mrs_cases():
+    out = []
+    for key in FROM_MRS:
+        for o in all_opts():
+            out.append({"kind": "frommrs", "mrs": key, "fmt": "native", "opts": o})
+        for p_, l_, i_ in itertools.product([True, False], repeat=3):
+            o = {"properties": p_, "lnk": l_, "show_status": False, "indent": i_}
+            out.append({"kind": "frommrs", "mrs": key, "fmt": "json", "opts": o})
+            out.append({"kind": "frommrs", "mrs": key, "fmt": "penman", "opts": o})
+    return out
 
 
 # --------------------------------------------------------------------------- the public API (kind "api")
@@ -1330,6 +1398,24 @@ class C03(Check):
             text = mod.dumps(es, **fmt_kw(case["fmt"], case["indent"]))
             back = guarded(lambda: len(mod.loads(text)))
             return {"graphs": len(es), "chars_over_target": len(text) > case["target"], "back": back}
+        if k == "frommrs":
+            e = from_mrs_eds(case["mrs"])
+            o = case["opts"]
+            fmt = case["fmt"]
+
+            def run():
+                if fmt == "native":
+                    text = edsnative.encode(e, **opts_kw(o))
+                    d = edsnative.decode(text)
+                    return {"text": cps(text), "dec": {"ok": eds_to_j(d)}, "re": {"ok": cps(edsnative.encode(d, **opts_kw(o)))}}
+                if fmt == "json":
+                    dd = edsjson.to_dict(e, properties=o["properties"], lnk=o["lnk"])
+                    return {"dict": dict_obs(dd), "dec": eds_to_j(edsjson.from_dict(dd))}
+                tr = edspenman.to_triples(e, properties=o["properties"], lnk=o["lnk"])
+                return {"triples": [[cps(a), cps(b), cps(c)] for a, b, c in tr],
+                        "dec": {"ok": pen_obs(edspenman.from_triples(tr))}}
+            r = guarded_any(run)
+            return r["ok"] if "ok" in r else r
         if k == "pentext":
             text = uncps(case["text"])
             rd = {"decode": "decode", "loads": "loads", "load": "load-handle", "loadpath": "load-path"}[case["api"]]
@@ -1395,6 +1481,12 @@ class C03(Check):
             if not all(ascii_cased_only(uncps(t)) for name, t in toks if name == "SYMBOL"):
                 return None
             return {"op": "lextext", "text": case["text"], "api": case["api"]}
+        if k == "frommrs":
+            g = eds_to_j(from_mrs_eds(case["mrs"]))
+            o = case["opts"]
+            if case["fmt"] == "native":
+                return {"op": "native", "eds": g, "opts": o}
+            return {"op": case["fmt"], "eds": g, "properties": o["properties"], "lnk": o["lnk"], "indent": bool(o["indent"])}
         if k == "api":
             es = [eds_of_j(g) for g in case["docs"]]
             fmt = case["fmt"]
@@ -1458,6 +1550,8 @@ class C03(Check):
         return res
 
     def model_compare(self, case, expected, answer):
+        if case.get("kind") == "frommrs" and isinstance(expected, dict) and isinstance(answer, dict):
+            answer = {k: v for k, v in answer.items() if k in expected}
         if case.get("kind") == "api" and case.get("fmt") == "penman":
             expected, answer = pen_canon(expected), pen_canon(answer)
         if case.get("kind") == "json" and isinstance(expected, dict) and isinstance(answer, dict) and "native" not in expected:
@@ -1507,7 +1601,43 @@ class C03(Check):
             self._oracle_api(case, fail)
         elif k == "pentext":
             self._oracle_pentext(case, res, fail)
+        elif k == "frommrs":
+            self._oracle_frommrs(case, res, fail)
         return fails
+
+    def _oracle_frommrs(self, case, res, fail):
+        """the object eds.from_mrs returned goes through the codec as the same graph built from its own nodes does"""
+        if isinstance(res, dict) and "err" in res:
+            fail("frommrs: a codec raises on an EDS produced by eds.from_mrs", repr(res))
+            return
+        e = from_mrs_eds(case["mrs"])
+        o = case["opts"]
+        fmt = case["fmt"]
+        g = eds_to_j(e)
+        mod = MODS[fmt]
+        kw = opts_kw(o) if fmt == "native" else dict(properties=o["properties"], lnk=o["lnk"], indent=o["indent"])
+        try:
+            t_obj = mod.encode(e, **kw)
+            t_new = mod.encode(eds_of_j(g), **kw)
+            l_obj = mod.dumps([e, e], **kw)
+            l_new = mod.dumps([eds_of_j(g), eds_of_j(g)], **kw)
+        except Exception as ex:   # noqa: BLE001
+            fail("frommrs: a codec raises on an EDS produced by eds.from_mrs", type(ex).__name__)
+            return
+        if t_obj != t_new or l_obj != l_new:
+            fail("frommrs: the text written for an EDS produced by eds.from_mrs differs from the text of the same graph "
+                 "built from its nodes", repr((t_obj, t_new)))
+        if fmt == "native":
+            self._oracle_native({"kind": "native", "eds": g, "opts": o}, fail, obj=e)
+        elif fmt == "json":
+            self._oracle_json({"kind": "json", "eds": g, "properties": o["properties"], "lnk": o["lnk"],
+                               "indent": o["indent"]}, fail, obj=e)
+        else:
+            try:
+                self._oracle_penman({"kind": "penman", "eds": g, "properties": o["properties"], "lnk": o["lnk"],
+                                     "indent": o["indent"]}, fail, obj=e)
+            except Exception as ex:   # noqa: BLE001
+                fail("penman: a step of the round trip raises on the decoded graph", type(ex).__name__)
 
     def _oracle_pentext(self, case, res, fail):
         """what the penman library cannot read is reported as PyDelphinException by every read path; what it can read
@@ -1732,8 +1862,8 @@ class C03(Check):
         except Exception as ex:   # noqa: BLE001
             fail("%s: repeated call raises" % fmt, "%s" % type(ex).__name__)
 
-    def _oracle_native(self, case, fail):
-        e = eds_of_j(case["eds"])
+    def _oracle_native(self, case, fail, obj=None):
+        e = obj if obj is not None else eds_of_j(case["eds"])
         o = case["opts"]
         if not self._in_scope(e, o):
             return
@@ -1818,7 +1948,7 @@ class C03(Check):
                 fail("native: list API differs from single API", repr(s))
         except Exception as ex:   # noqa: BLE001
             fail("native: list API cannot read its own output", "%s: %r" % (type(ex).__name__, s))
-        if len(e.nodes) <= 12 and zlib.crc32(canon(case).encode()) % 2 == 0:     # every other case (by content)
+        if len(e.nodes) <= 12 and (obj is not None or zlib.crc32(canon(case).encode()) % 2 == 0):   # every other case
             pk = dict(properties=o["properties"], lnk=o["lnk"], show_status=o["show_status"])
             fo = dict(o, properties=not o["properties"], lnk=not o["lnk"])
             self._purity("native", edsnative, e, pk, fail, lambda d0: True, flip_ok=self._in_scope(e, fo),
@@ -1871,8 +2001,8 @@ class C03(Check):
         except Exception as ex:   # noqa: BLE001
             fail("%s: dump/load fails" % fmt, "%s" % type(ex).__name__)
 
-    def _oracle_json(self, case, fail):
-        e = eds_of_j(case["eds"])
+    def _oracle_json(self, case, fail, obj=None):
+        e = obj if obj is not None else eds_of_j(case["eds"])
         if not (ids_distinct(e) and targets_ok(e)):
             return
         p, l, ind = case["properties"], case["lnk"], case["indent"]
@@ -1934,8 +2064,8 @@ class C03(Check):
                     and all(lexable_lnk(n.lnk) for n in e.nodes)
                     and (PRED_ID_COLLISION_IN_ORACLE or not pred_id_collision(e)))
 
-    def _oracle_penman(self, case, fail):
-        e = eds_of_j(case["eds"])
+    def _oracle_penman(self, case, fail, obj=None):
+        e = obj if obj is not None else eds_of_j(case["eds"])
         if not self._pen_scope(e) or not e.nodes:
             return
         if e.top is None or e.top not in {n.id for n in e.nodes}:
@@ -2061,6 +2191,12 @@ class C03(Check):
         if k0 == "churn":
             inc("churn:nodes:%d" % len(case["graphs"][0]["nodes"]))
             return
+        if k0 == "frommrs":
+            e = from_mrs_eds(case["mrs"])
+            inc("frommrs:%s:%s" % (case["mrs"], case["fmt"]))
+            inc("frommrs:stale-id-index:%s" % any(n.id not in e for n in e.nodes))
+            inc("frommrs:edge-to-renamed-node:%s" % any(t not in e for n in e.nodes for t in n.edges.values()))
+            return
         if k0 == "api":
             inc("api:%s:%s->%s" % (case["fmt"], case["write"], case["read"]))
             inc("api:%s:indent=%r" % (case["fmt"], case["indent"]))
@@ -2087,6 +2223,11 @@ class C03(Check):
                     inc("has:quote-or-backslash-constant")
                 if any(x.type is None and x.properties for x in e.nodes):
                     inc("has:untyped-with-properties")
+                tops = [x for x in e.nodes if x.id == e.top]
+                if tops and any(x.id != e.top and x == tops[0] for x in e.nodes):
+                    inc("has:twin-of-top")
+                    if e.nodes[0].id != e.top and e.nodes[0] == tops[0]:
+                        inc("has:twin-of-top-listed-first")
                 if not case_stable(e):
                     inc("has:needs-case-normalisation")
                 if not ids_distinct(e):
